@@ -26,8 +26,8 @@ Oracle (from the property text):
 * the (file, function, line) triples of the script frames of that record equal those of
   CPython's own traceback for the same source (the rendered files are compiled and run natively
   in the harness with stub trigger decorators) - for every exception of a cause/context chain;
-* nothing reaches a ``homeassistant.*`` logger at ERROR or the loop exception handler, a
-  blocking service call does not raise;
+* nothing reaches a ``homeassistant.*`` logger at ERROR or the loop exception handler, no task is left
+  with an unretrieved exception, a blocking service call does not raise;
 * every delivered stimulus reaches the user code again; witnesses run exactly once per witness
   stimulus; a load-time fault leaves exactly that file (and a failing module) without a context.
 """
@@ -68,6 +68,8 @@ ASSUMPTIONS = [
     "BaseException-only kinds (SystemExit, KeyboardInterrupt, CancelledError, GeneratorExit) are not injected "
     "(documented: exit() can crash HA); StopIteration is not injected (generators are documented as unsupported)",
     "lambdas are documented to be compiled natively and are not part of the generated chains",
+    "an exception left in a finished task counts as propagated into Home Assistant (asyncio reports it to the "
+    "loop's exception handler when the task is destroyed)",
     "when a file fails because a module it imports fails at load time, one report on the importing file's "
     "logger is required and at most one more on the module's logger is accepted",
     "state-variable stimuli are never delivered in bursts (C04/C05 territory); events and service calls are",
@@ -243,16 +245,22 @@ def _gen_fill(rng: random.Random, hi: int = 3) -> list:
     return [rng.randrange(len(FILLERS)) for _ in range(rng.choice([0, 0, 1, 1, 2, hi]))]
 
 
-def _gen_fault(rng: random.Random, direct: bool) -> dict:
+def _gen_fault(rng: random.Random, direct: bool, steer: bool) -> dict:
     if direct:
         return {"kind": rng.choice(["zerodiv", "floordiv", "name", "type_add", "value", "key", "index", "attr",
                                     "overflow"]), "site": "expr", "exc": None, "inner": None}
     if rng.random() < 0.45:
-        return {"kind": rng.choice(sorted(FAULT_EXPR)), "site": rng.choice(sorted(SITES_EXPR)), "exc": None,
-                "inner": None}
-    kind = rng.choice(sorted(FAULT_STMT))
-    return {"kind": kind, "site": rng.choice(["plain", "plain"] + sorted(SITES_STMT)),
-            "exc": rng.choice(BUILTIN_EXCS), "inner": rng.choice(sorted(FAULT_EXPR))}
+        sites = sorted(SITES_EXPR)
+        if steer:
+            sites = [st for st in sites if st not in CONTEXT_SITES]
+        return {"kind": rng.choice(sorted(FAULT_EXPR)), "site": rng.choice(sites), "exc": None, "inner": None}
+    kinds = sorted(FAULT_STMT)
+    sites = ["plain", "plain"] + sorted(SITES_STMT)
+    if steer:
+        kinds = [k for k in kinds if k not in CHAINED_FAULTS | CONTEXT_FAULTS | {"reraise_var"}]
+        sites = [st for st in sites if st not in CONTEXT_SITES]
+    return {"kind": rng.choice(kinds), "site": rng.choice(sites), "exc": rng.choice(BUILTIN_EXCS),
+            "inner": rng.choice(sorted(FAULT_EXPR))}
 
 
 def gen(rng: random.Random, tier: str) -> dict:
@@ -260,27 +268,41 @@ def gen(rng: random.Random, tier: str) -> dict:
     cfg["initial_states"] = {STATE_VAR: ["idle", {}], "pyscript.c18w_same": ["w0", {}]}
     for oi in range(2):
         cfg["initial_states"][f"pyscript.c18w_o{oi}"] = ["w0", {}]
+    # half of the runs steer away from the program shapes behind the findings already made on the unchanged
+    # tree (same-named adjacent frames, chained sections, import-time faults, trigger functions of the new
+    # subsystem) so that everything else keeps being judged once those are listed as known
+    steer = rng.random() < 0.5
     entry = rng.choices(ENTRY_KINDS, ENTRY_WEIGHTS)[0]
+    if steer:
+        while entry == "load_import" or (not cfg["legacy"] and ENTRY_CLASS[entry] == "trigger_function"):
+            entry = rng.choices(ENTRY_KINDS, ENTRY_WEIGHTS)[0]
     direct = entry in EXPR_ENTRIES and rng.random() < 0.2
     depth = 1 if direct else rng.choice([1, 2, 2, 3, 3, 4, 5, 5])
     levels = []
     frames = 1
     in_mod = entry == "load_import"
+    call_sites = [st for st in sorted(SITES_EXPR) if not (steer and st in CONTEXT_SITES)]
     while frames < depth:
-        kind = rng.choices(LEVEL_KINDS, LEVEL_WEIGHTS)[0]
+        if steer:
+            kind = rng.choices(["func", "method", "closure"], [10, 6, 3])[0]
+            if kind == "method" and levels and levels[-1]["kind"] == "method":
+                kind = "func"  # two adjacent frames called 'run'
+        else:
+            kind = rng.choices(LEVEL_KINDS, LEVEL_WEIGHTS)[0]
         if frames + LEVEL_COST[kind] > depth:
             kind = "func"
         if not in_mod and rng.random() < 0.22:
             in_mod = True
         levels.append({"kind": kind, "mod": in_mod, "pre": _gen_fill(rng), "post": _gen_fill(rng, 2),
-                       "site": rng.choice(sorted(SITES_EXPR))})
+                       "site": rng.choice(call_sites)})
         frames += LEVEL_COST[kind]
     spec = {
         "entry": entry,
         "direct": direct,
-        "entry_frame": {"pre": _gen_fill(rng), "post": _gen_fill(rng, 2), "site": rng.choice(sorted(SITES_EXPR))},
+        "steer": steer,
+        "entry_frame": {"pre": _gen_fill(rng), "post": _gen_fill(rng, 2), "site": rng.choice(call_sites)},
         "levels": levels,
-        "fault": _gen_fault(rng, direct),
+        "fault": _gen_fault(rng, direct, steer),
         "import": rng.choice(["import", "from"]),
         "pad": rng.randrange(0, 6),
         "order": rng.randrange(1 << 16),
@@ -291,8 +313,6 @@ def gen(rng: random.Random, tier: str) -> dict:
     }
     if entry == "time_func":
         cfg["drift"] = 0.0  # a drifting wall clock makes period() fire twice per instant (C06/C07's subject)
-    if entry in LOAD_ENTRIES and spec["wit_same"]["kind"] == "service":
-        spec["wit_same"]["kind"] = "event"
     # ---- stimuli
     if entry == "shutdown":
         n_fault = 0
@@ -1172,13 +1192,15 @@ def oracle(w: World, scn: dict, files: dict, native: list, obs: dict):
         if not problems:
             n_equal += 1
         for section, cmp, text in problems:
-            sig = dict(base_sig, section=section, diff=cmp["diff"], via=cmp["via"], why=cmp["why"])
+            # the formatter is shared by all entry points: the signature carries the entry class only
+            sig = {"subsystem": sub, "entry_class": ENTRY_CLASS[entry], "section": section, "diff": cmp["diff"],
+                   "via": cmp["via"], "why": cmp["why"]}
             key = json.dumps(sig, sort_keys=True)
             if key in seen_tb:
                 continue
             seen_tb.add(key)
             viol("C18.traceback_frames", sig,
-                 f"{_sig_text(main_sec)} on {rec['logger']}: [{section}] {text}", t_rel)
+                 f"entry {entry}: {_sig_text(main_sec)} on {rec['logger']}: [{section}] {text}", t_rel)
     if n_equal:
         w.probe("frames_equal_cpython", n_equal)
 
@@ -1187,11 +1209,20 @@ def oracle(w: World, scn: dict, files: dict, native: list, obs: dict):
         how = "loop_exception_handler" if item.get("exc") is not None else "ha_error_log"
         viol("C18.escaped_to_ha", dict(base_sig, how=how),
              f"{item.get('message')} {item.get('exc') or ''}"[:300], item.get("vt", 0.0))
+    for task in w.tasks:
+        # an exception left in a finished task is what asyncio hands to the loop's (= Home Assistant's)
+        # exception handler as "Task exception was never retrieved" once the task is destroyed
+        if task.done() and not task.cancelled():
+            exc = task.exception()
+            if exc is not None and not isinstance(exc, HarnessError):
+                viol("C18.escaped_to_ha", dict(base_sig, how="task_exception"),
+                     f"task {w.label_of(task)} ended with {type(exc).__name__}: {exc}"[:300], t_last)
+                break
     for what, name, text, t in obs["call_raised"]:
         if what == "fault":
             viol("C18.escaped_to_ha", dict(base_sig, how="service_call_raised"),
                  f"blocking call of pyscript.{name} raised {text}", t)
-        elif not (is_load and name.endswith("_same")):
+        elif not (is_load and name == "same"):  # the service of a file that failed to load must be unknown
             viol("C18.disturbed_other", dict(base_sig, what="witness_service_call_raised"),
                  f"call of witness service {name} raised {text}", t)
 
